@@ -390,7 +390,13 @@ MutTargets == IF Deep THEN Values ELSE
   V("Envelope", Envs) \cup V("State", { s \in States : s.ver = 7 /\ s.fin }) \cup V("Allocation", AllocsAll)
   \cup V("Balances", BalsDom) \cup V("SubAlloc", SubAllocs) \cup V("Params", { p \in ParamsDom : p.cd = 60 /\ p.nonce = 77 })
   \cup V("Transaction", Txs) \cup (Values \ (V("Envelope", Envs) \cup V("State", States) \cup V("Params", ParamsDom)))
-MutCase2(ty, toks, base, why) == [ty |-> ty, toks |-> toks, base |-> base, why |-> why, bytes |-> ByteLen(toks), muts |-> MutSeq(toks)]
+(* the participant limit belongs to parameters and proposals, not to the   *)
+(* bare address-array decoders                                             *)
+MutSeqFor(ty, toks) == LET ms == MutSeq(toks) IN
+  IF ty \in {"WalletAddrMapArray", "WireAddrMapArray"}
+  THEN [i \in 1..Len(ms) |-> IF ms[i].op = "grow" THEN [ms[i] EXCEPT !.over = FALSE, !.exp = "any"] ELSE ms[i]]
+  ELSE ms
+MutCase2(ty, toks, base, why) == [ty |-> ty, toks |-> toks, base |-> base, why |-> why, bytes |-> ByteLen(toks), muts |-> MutSeqFor(ty, toks)]
 ExportMut(u) ==
   /\ \A x \in MutTargets : PrintT(ToJson(MutCase2(x.ty, Enc(x), "value", "valid")))
   /\ \A b \in BadStreams : PrintT(ToJson(MutCase2(b.ty, b.toks, b.base, b.why)))
